@@ -241,6 +241,7 @@ def run_impl9(prog, deep=True, params=None):
     n_rewrites = 0
     n_changed = 0
     copies = set()
+    effects = []
     for op in prog:
         is_rw = op[0] in REWRITES
         before = before_obj = None
@@ -266,6 +267,9 @@ def run_impl9(prog, deep=True, params=None):
                     copies.update((op[1], op[2]))
                 elif before is not None and before[1] != snap[0][1]:
                     n_changed += 1       # the rewrite really changed the component list
+                if before is not None:
+                    effects.append([op[0], len(before[1]), len(snap[0][1]), sum(1 for s_ in snap[0][1] if s_[0] == 4),
+                                    has_group(before[1]), before[1] != snap[0][1]])
                 if fail is None and before is not None:
                     try:
                         fail = rewrite_oracle(op, before, before_obj, pool[target_of(op)], deep)
@@ -279,7 +283,7 @@ def run_impl9(prog, deep=True, params=None):
             n_changed += 1               # a copy (or its source) was modified after the copy was taken
         steps.append([out, snap])
     world = [[cid, snapshot9(pool[cid])] for cid in pool]
-    return [steps, world], pool, fail, {"rewrites": n_rewrites, "changed": n_changed}
+    return [steps, world], pool, fail, {"rewrites": n_rewrites, "changed": n_changed, "effects": effects}
 
 
 # ---------------------------------------------------------------- Parameter-carrying programs (oracle only)
@@ -527,6 +531,46 @@ def gen_chain(rng, tier):
     return prog
 
 
+def gen_n5_shape(rng, tier):
+    """S_a ; blockers on a mode x ; S_b containing x (so S_b is blocked and stays) ; S_c disjoint from x and S_b
+    (so S_c is unblocked seen from S_a AND seen from S_b): the shape on which the pinned
+    compress_mode_swaps merged S_c twice.  Random material around it."""
+    n = rng.randint(4, 6 if tier == "quick" else 8)
+    prog = [["new", 0, n]]
+    st = {"nid": 1, "swaps": []}
+    a, b, x, y = rng.sample(range(n), 4)
+    free = [m for m in range(n) if m not in (a, b)]
+
+    def junk(k, modes):
+        for _ in range(k):
+            r = rng.random()
+            m = rng.choice(modes)
+            if r < 0.5:
+                prog.append(["ps", 0, m, rng.randrange(len(cg.PHV)), None])
+            elif r < 0.7:
+                prog.append(["loss", 0, m, cg.gen_value_loss(rng, 1.0)])
+            elif r < 0.85 and len(modes) >= 2:
+                m1, m2 = rng.sample(modes, 2)
+                prog.append(["bs", 0, m1, m2, cg.gen_value_bs(rng), None, rng.choice(["Rx", "H"])])
+            else:
+                prog.append(["barrier", 0, None])
+    junk(rng.randint(0, 2), list(range(n)))
+    sa = gen_swaps(rng, n, [])
+    prog.append(["swaps", 0, sa])
+    junk(rng.randint(0, 1), free)
+    prog.append(["ps", 0, x, rng.randrange(len(cg.PHV)), None] if rng.random() < 0.7 else ["loss", 0, x, cg.gen_value_loss(rng, 1.0)])
+    prog.append(["swaps", 0, [[x, y], [y, x]]])
+    junk(rng.randint(0, 2), [m for m in free if m not in (x, y)] or free)
+    prog.append(["swaps", 0, [[a, b], [b, a]]])
+    if rng.random() < 0.5:
+        prog.append(["swaps", 0, gen_swaps(rng, n, [])])
+    junk(rng.randint(0, 2), list(range(n)))
+    prog.append(["compress", 0])
+    n_of = {0: n}
+    gen_rewrites(rng, prog, [0], st, n_of, rng.randint(0, 2))
+    return prog
+
+
 def gen_tree9(rng, tier):
     prog = cg.gen_tree_program(rng, tier, loss_p=0.2, max_leaves=3)
     made = [op[1] for op in prog if op[0] in ("new", "unitary", "copy")]
@@ -574,25 +618,28 @@ class C09:
             "with further construction calls on originals and copies; Parameter-carrying variants for the frozen-copy oracle. "
             "Non-trivial = at least one rewrite that changed the component list or a copy that was later modified; "
             "distinct = distinct program JSON")
-    CHUNK = 25
+    CHUNK = 26
     TRUSTED = ["Python floats vs exact rationals compared at 1e-9",
                "independence is tested by mutation through the public API on deep-copied clones (copy.deepcopy is trusted to clone)"]
     ASSUMPTIONS = ["heralded transition amplitudes are a function of (U_full, heralds, input): checked directly with the Simulator only for inputs of 1-2 photons on circuits with <= 4 open modes",
                    "Parameters appear only in the implementation-side oracle (the model runs literal values); C10 covers parameters"]
 
     def generate(self, rng, tier):
-        n = 330 if tier == "quick" else 6000
+        n = 400 if tier == "quick" else 3000
         cases = []
         for i in range(n):
             r = i % 10
             if r < 4:
                 cases.append(dict(kind="flat", prog=gen_flat(rng, tier)))
-            elif r < 7:
+            elif r < 6:
                 cases.append(dict(kind="chain", prog=gen_chain(rng, tier)))
+            elif r < 7:
+                cases.append(dict(kind="chain", prog=gen_n5_shape(rng, tier)))
             elif r < 9:
                 cases.append(dict(kind="tree", prog=gen_tree9(rng, tier)))
             else:
-                base = gen_flat(rng, tier) if rng.random() < 0.6 else gen_chain(rng, tier)
+                rr = rng.random()
+                base = gen_flat(rng, tier) if rr < 0.5 else (gen_chain(rng, tier) if rr < 0.8 else gen_n5_shape(rng, tier))
                 base = [(["copy"] + op[1:]) if op[0] == "copyf" else op for op in base]
                 prog, pars = parametrise(rng, base)
                 cases.append(dict(kind="param", prog=prog, pars=pars, target=0))
@@ -603,7 +650,7 @@ class C09:
             fail, n_rw = run_param_case(c)
             return [[], [], {"oracle": fail, "rewrites": n_rw, "changed": len(c["pars"])}]
         obs, pool, fail, info = run_impl9(c["prog"])
-        obs.append({"oracle": fail, "rewrites": info["rewrites"], "changed": info["changed"]})
+        obs.append({"oracle": fail, "rewrites": info["rewrites"], "changed": info["changed"], "effects": info["effects"]})
         return obs
 
     def coq_header(self):
@@ -634,7 +681,6 @@ class C09:
         ops = Counter()
         kinds = Counter()
         comps = Counter()
-        merged = 0
         for r in recs:
             kinds[r["case"]["kind"]] += 1
             for op in r["case"]["prog"]:
@@ -643,7 +689,19 @@ class C09:
                 for _, snap in r["impl"][1]:
                     for s in snap[1]:
                         comps[s[0]] += 1
-        return {"ops": dict(ops), "case_kinds": dict(kinds),
+        eff = Counter()
+        for r in recs:
+            if not (isinstance(r["impl"], list) and len(r["impl"]) == 3):
+                continue
+            for kind, lb, la, nsw, grp, changed in r["impl"][2].get("effects", []):
+                eff[kind + "_calls"] += 1
+                eff[kind + "_calls_that_changed_the_spec"] += bool(changed)
+                if kind == "compress":
+                    eff["swaps_merged"] += lb - la
+                    eff["compress_merged_and_>=2_swaps_left"] += (lb > la and nsw >= 2)
+                if kind == "unpack":
+                    eff["unpack_calls_with_groups"] += bool(grp)
+        return {"ops": dict(ops), "case_kinds": dict(kinds), "rewrite_effects": dict(eff),
                 "final_component_kinds(0=BS,1=PS,2=Loss,3=Barrier,4=Swaps,5=Unitary,6=Group)": dict(comps)}
 
     def shrink(self, c):
